@@ -167,8 +167,13 @@ def _remove_node_and_replace_values(
                     graph.outputs[idx] = aliases[graph_output]
                     continue
                 new_value = replacement_mapping[graph_output]
-                if new_value.is_graph_output() or new_value.is_graph_input():
-                    # If the new value is also a graph input/output, we need to
+                if (
+                    new_value.is_graph_output()
+                    or new_value.is_graph_input()
+                    or _name_used_in_subgraphs(graph, graph_output.name)
+                ):
+                    # If the new value is also a graph input/output (or renaming it
+                    # would clash with a name used inside a nested subgraph), we need to
                     # create a Identity node to preserve the remove_value and
                     # prevent from changing new_value name.
                     identity_node = ir.node(
@@ -205,6 +210,23 @@ def _remove_node_and_replace_values(
     ir.convenience.replace_all_uses_with(remove_values, new_values)
 
     graph.remove(remove_node, safe=True)
+
+
+def _name_used_in_subgraphs(graph_like: ir.Graph | ir.Function, name: str | None) -> bool:
+    """Whether a value defined inside a nested subgraph of ``graph_like`` is called ``name``.
+
+    Giving that name to a value of ``graph_like`` could make the subgraph shadow an
+    outer-scope name, which ONNX does not allow.
+    """
+    if not name:
+        return False
+    for graph in graph_like.subgraphs():
+        if name in graph.initializers or any(v.name == name for v in graph.inputs):
+            return True
+        for node in graph:
+            if any(v.name == name for v in node.outputs):
+                return True
+    return False
 
 
 def _is_non_deterministic_op(node: ir.Node) -> bool:
